@@ -30,6 +30,7 @@ abbrev FileSt := Option Bytes
 
 inductive Eff
   | openCreate (trunc : Bool)      -- open(O_CREATE [|O_TRUNC])
+  | openRead                       -- open(O_RDONLY) + read (readAndSum): no effect on the file, but a kill point
   | pwrite (off : Nat) (bs : Bytes) -- write of `bs` at byte offset `off`
   | truncate (n : Nat)             -- ftruncate
   | remove                         -- unlink
@@ -52,6 +53,7 @@ def applyEff : Eff → FileSt → FileSt
   | .openCreate _, none => some []
   | .openCreate true, some _ => some []
   | .openCreate false, some f => some f
+  | .openRead, s => s
   | .pwrite off bs, some f => some (pwriteAt f off bs)
   | .pwrite _ _, none => none          -- fd of an unlinked inode: invisible under the name
   | .truncate n, some f => some (truncTo f n)
@@ -269,6 +271,7 @@ inductive Out
   | digest (d : Digest)
   | entry (size : Nat)
   | unlinked (removed : Bool)
+  | pair (r : Res) (hooked : Option (Option Digest × Res))   -- linkR: Link's result, the hooked Resolve's
   deriving DecidableEq, Repr
 
 /-- `Put(d, r, size)` -/
@@ -328,6 +331,23 @@ def linkZ (hash : Bytes → Digest) (zc fixed : Bool) (k : Disk) (name : Bytes) 
   | some _ =>
     if zc = true ∧ k.blob d = some [] ∧ d ≠ hash [] then (k, .notExist)
     else link hash fixed k name d
+
+/-- What the repaired `Link` (`zc` = with the zero-length refusal) does TO THE MANIFEST FILE of a valid name, as
+    effects, given the manifest's and the blob file's current states: `readAndSum` of the manifest (a read), then
+    — unless it already hashes to `d` — the blob is copied and verified into a FRESH temporary name (invisible
+    under the manifest name) and renamed over the manifest: one atomic `replace`.  Nothing else ever touches the
+    manifest file, in particular not on a failed copy. -/
+def linkFileEffs (hash : Bytes → Digest) (zc : Bool) (man blob : FileSt) (d : Digest) : List Eff × Res :=
+  match blob with
+  | none => ([], .notExist)
+  | some f =>
+    if zc = true ∧ f = [] ∧ d ≠ hash [] then ([], .notExist)
+    else if man.map hash = some d then ([.openRead], .ok)
+    else
+      let r := copyNamedEffs hash none d f.length ⟨[f], .eof⟩
+      match r.2 with
+      | .ok => ([.openRead, .replace f], .ok)
+      | e => ([.openRead], e)
 
 /-- `Unlink(name)` -/
 def unlink (k : Disk) (name : Bytes) : Disk × Out :=
@@ -408,16 +428,38 @@ inductive Op
   | importB (size : Nat) (s : Script)
   | get (d : Digest)
   | link (name : Bytes) (d : Digest)
+  | linkR (name : Bytes) (d : Digest)   -- Link with a Resolve(name) fired between the verified copy and the rename
   | unlink (name : Bytes)
   | resolve (name : Bytes)
   | chunk (d : Digest) (size start stop : Nat) (cd : Digest) (s : Script)
   deriving Repr
+
+/-- does `testHookBeforeFinalWrite` fire inside `Link(name, d)`?  Iff the copy into the temporary file is reached,
+    the blob is not empty and its digest verified; at that moment the manifest has not been touched. -/
+def linkRFires (hash : Bytes → Digest) (fixed zc : Bool) (k : Disk) (name : Bytes) (d : Digest) : Bool :=
+  match nameToPath name, k.blob d with
+  | some want, some f =>
+    fixed && !(decide (zc = true ∧ f = [] ∧ d ≠ hash [])) &&
+      !(decide ((manGet k.mans (manifestPathOf k.mans want)).map hash = some d)) &&
+      !f.isEmpty && decide ((copyNamedEffs hash none d f.length ⟨[f], .eof⟩).2 = .ok)
+  | _, _ => false
 
 def stepOp (hash : Bytes → Digest) (fixed zc : Bool) (k : Disk) : Op → Disk × Out
   | .put d size s => let r := put hash k d size s; (r.1, .res r.2)
   | .importB size s => importB hash k size s
   | .get d => (k, getB k d)
   | .link name d => let r := linkZ hash zc fixed k name d; (r.1, .res r.2)
+  | .linkR name d =>
+    if linkRFires hash fixed zc k name d then
+      let rr := resolve hash k name
+      let r := linkZ hash zc fixed rr.1 name d
+      (r.1, .pair r.2 (some (match rr.2 with
+        | .digest dg => (some dg, .ok)
+        | .res e => (none, e)
+        | _ => (none, .ok))))
+    else
+      let r := linkZ hash zc fixed k name d
+      (r.1, .pair r.2 none)
   | .unlink name => unlink k name
   | .resolve name => resolve hash k name
   | .chunk d size a b cd s => let r := chunk hash k d size a b cd s; (r.1, .res r.2)
@@ -436,6 +478,7 @@ inductive EffKind | openK | writeK | truncK | renameK | unlinkK | closeK
 
 def Eff.kind : Eff → EffKind
   | .openCreate _ => .openK
+  | .openRead => .openK
   | .pwrite _ _ => .writeK
   | .truncate _ => .truncK
   | .replace _ => .renameK
